@@ -2173,7 +2173,11 @@ class CIMInstanceName(_CIMComparisonMixin, SlottedPickleMixin):
         if self.namespace is not None:
             ret.append(case(self.namespace))
 
-        if self.namespace is not None or format != 'historical':
+        if self.namespace is not None or format != 'historical' or \
+                self.host is not None:
+            # With a host but without a namespace, the colon is needed also
+            # in the historical format: '//host/Class' cannot be parsed back
+            # because 'Class' would be the namespace.
             ret.append(':')
 
         ret.append(case(self.classname))
@@ -3782,7 +3786,11 @@ class CIMClassName(_CIMComparisonMixin, SlottedPickleMixin):
         if self.namespace is not None:
             ret.append(case(self.namespace))
 
-        if self.namespace is not None or format != 'historical':
+        if self.namespace is not None or format != 'historical' or \
+                self.host is not None:
+            # With a host but without a namespace, the colon is needed also
+            # in the historical format: '//host/Class' cannot be parsed back
+            # because 'Class' would be the namespace.
             ret.append(':')
 
         ret.append(case(self.classname))
